@@ -47,7 +47,10 @@ type IonWorld struct {
 	// handed to writers and Marshal calls of other tasks (Build promises an immutable table).
 	Builder ion.SymbolTableBuilder
 	Built   ion.SymbolTable
-	model   CWorld
+	// Tokens is a list of symbol tokens made once from a shared table (ion.NewSymbolTokens) that several tasks pass, in
+	// part, to their writers' Annotations.
+	Tokens []ion.SymbolToken
+	model  CWorld
 }
 
 func BuildIonWorld(w CWorld) *IonWorld {
@@ -68,6 +71,9 @@ func BuildIonWorld(w CWorld) *IonWorld {
 		iw.Builder.Add(t)
 	}
 	iw.Built = iw.Builder.Build()
+	if toks, err := ion.NewSymbolTokens(ion.NewLocalSymbolTable(iw.SSTs[:1], nil), []string{"a1", "a2", "stage", "x", "dup", "zed"}); err == nil {
+		iw.Tokens = toks
+	}
 	if w.CatTables == nil {
 		iw.Cat = ion.NewCatalog(iw.SSTs...)
 	} else {
@@ -140,6 +146,11 @@ func (w *IonWorld) Digest() string {
 		digestTable(&sb, fmt.Sprintf("view[%d]", i), t)
 	}
 	digestTable(&sb, "system", ion.V1SystemSymbolTable)
+	sb.WriteString("tokens")
+	for i := range w.Tokens {
+		sb.WriteString(" " + tokStr(&w.Tokens[i]))
+	}
+	sb.WriteByte('\n')
 	fmt.Fprintf(&sb, "built max=%d symbols=%q", w.Built.MaxID(), w.Built.Symbols())
 	for _, p := range []string{"x", "zed", "a1", "late_1", "late_2", "late_7", "nosuch"} {
 		id, ok := w.Built.FindByName(p)
@@ -726,6 +737,14 @@ func RunCTask(w *IonWorld, t CTask, yield func(string)) (out string) {
 		sink.Yield = yield
 		wr := w.writer(t, sink)
 		for i, op := range t.Ops {
+			if op.Op == "annots-shared" {
+				// the first n of the world's token list, as they are, then one more annotation of the task's own
+				n := int(op.T) % (len(w.Tokens) + 1)
+				if err := wr.Annotations(w.Tokens[:n]...); err != nil {
+					fmt.Fprintf(&sb, "op %d %s: %s\n", i, op.Op, err.Error())
+				}
+				continue
+			}
 			if err := Apply(wr, op); err != nil {
 				fmt.Fprintf(&sb, "op %d %s: %s\n", i, op.Op, err.Error())
 			}
